@@ -494,7 +494,23 @@ func (x *Exec) call(a *activation, b *ssa.BasicBlock, i int, in *ssa.Call, fr *f
 	if bi, ok := cc.Value.(*ssa.Builtin); ok {
 		return x.builtin(bi.Name(), in, args, fr, h)
 	}
+	var invoked *ssa.Function
 	if cc.IsInvoke() {
+		// the receiver was boxed from a library type: the call goes to that type's method
+		if recv := x.val(fr, cc.Value); recv.k == 'I' && recv.dyn != nil {
+			if m := x.c.Prog.LookupMethod(recv.dyn, cc.Method.Pkg(), cc.Method.Name()); m != nil && m.Blocks != nil {
+				invoked = m
+				var rv AV
+				if _, isPtr := recv.dyn.Underlying().(*types.Pointer); isPtr {
+					rv = AV{k: 'P', tri: 2, obj: recv.obj, what: "ptr " + recv.dyn.String()}
+				} else {
+					rv = AV{k: 'G', agg: recv.agg, what: "struct"}
+				}
+				args = append([]AV{rv}, args...)
+			}
+		}
+	}
+	if cc.IsInvoke() && invoked == nil {
 		recv := x.val(fr, cc.Value)
 		switch cc.Method.Name() {
 		case "Error", "String":
@@ -520,6 +536,9 @@ func (x *Exec) call(a *activation, b *ssa.BasicBlock, i int, in *ssa.Call, fr *f
 		return false
 	}
 	callee := cc.StaticCallee()
+	if invoked != nil {
+		callee = invoked
+	}
 	if callee == nil {
 		fv := x.val(fr, cc.Value)
 		if fv.k == 'U' && fv.fn != nil {
